@@ -190,6 +190,12 @@ manifest = {
          "kind_free_text": "TLA+ specifications (spec/*.tla) checked by TLC; behaviours/graphs exported "
                            "by TLC are replayed on the real code; traces recorded from the real code "
                            "are validated by TLC trace specifications"},
+        {"name": "apalache-inductive", "path": "harness/apalache.py",
+         "serves_properties": ["C01", "C06", "C07", "C10"],
+         "kind_free_text": "TLA+ inductive invariants (spec/CapsInd.tla, BreakerInd.tla, BudgetInd.tla) checked "
+                           "symbolically by Apalache for arbitrary integer parameters and times, with refuted "
+                           "textual mutants as vacuity guard, and bound to the TLC models by TLC cross-checks "
+                           "(spec/*IndX.tla); runs inside the tlc-mbt checks of those properties"},
     ],
     "checks": [
         {
